@@ -222,7 +222,7 @@ pub fn check(_ctx: &Ctx, input: &Input) -> CaseResult {
 fn run(ctx: &Ctx) {
     let plans = [GenPlan {
         gen: "full-nobig",
-        cases: ctx.tier.pick(30_000, 600_000),
+        cases: ctx.tier.pick(150_000, 1_500_000),
         min_len: 41,
         max_len: ctx.tier.pick(1500, 4000),
     }];
